@@ -36,6 +36,9 @@ def one(sid, tier, confirm):
         if confirm:
             os.makedirs(os.path.join(dst, "_seed"), exist_ok=True)  # the demos were written to live in <tree>/_seed/
             shutil.copy(demo, os.path.join(dst, "_seed", "demo.py"))
+            for f in os.listdir(sdir):  # helper modules some demos import
+                if f.endswith(".py") and f != "demo.py":
+                    shutil.copy(os.path.join(sdir, f), os.path.join(dst, "_seed", f))
             rc0, _ = run_demo(dst, os.path.join(dst, "_seed", "demo.py"))
             out["demo_without"] = rc0
         r = subprocess.run(["patch", "-p1", "-s", "-d", dst, "-i", os.path.join(sdir, "patch.diff")],
